@@ -13,6 +13,9 @@ const (
 	InjBeforeRoot = "item-before-root"
 )
 
+// NoBulletMarks replace the bullet in the no-bullet class (none of them contains '-', '*' or '+').
+var NoBulletMarks = []string{"x", "#", "##", "~", ">", "1.", "\u2022", "_", "\u2013", "=", "o"}
+
 var InjClasses = []string{InjNoBullet, InjEmptyText, InjNotMult, InjMixed, InjJump, InjBeforeRoot}
 
 // Injection describes one malformation; Variant selects among sub-forms (e.g. with/without trailing blank).
@@ -52,10 +55,13 @@ func Inject(lines []Line, sp Spelling, inj Injection) (out []Line, row string, o
 	}
 	switch inj.Class {
 	case InjNoBullet:
-		l.Bullet = "x" + l.Bullet[1:]
-		if strings.HasPrefix(l.Bullet, "x#") { // "x##" would still contain no list bullet; keep it simple
-			l.Bullet = "x"
+		// something that is not a list bullet takes the bullet's place; '#' only counts as "no bullet" on an indented
+		// line (at column 0 it would be a heading)
+		repl := NoBulletMarks[inj.Variant%len(NoBulletMarks)]
+		if strings.HasPrefix(repl, "#") && len(l.Indent) == 0 {
+			repl = "x"
 		}
+		l.Bullet = repl
 		out[at] = l
 		return out, l.Raw(), true
 	case InjEmptyText:
